@@ -110,10 +110,12 @@ class E2Session(SessionBase):
                                     signature=sig)
             self.discarded = 'oms-list-cannot-be-built'
             return
+        self.fresh_signature = [(list(o.el_id_list), list(o.spectrum_bitmap.freq_index)) for o in self.oms_list]
         self._adopt_fresh_oms_list('designed network')
 
     def _adopt_fresh_oms_list(self, when):
         self.model, self.services, self.own_extent = [], [], []
+        self.__dict__.pop('_bands_cache', None)
         for i, oms in enumerate(self.oms_list):
             bm = oms.spectrum_bitmap
             self.model.append({n: {FREE: 'F', UNUS: 'U', OCC: 'P'}[b] for n, b in zip(bm.freq_index, bm.bitmap)})
@@ -165,7 +167,7 @@ class E2Session(SessionBase):
         a network that already went through a build and carried assignments, and give the same fresh partition"""
         if self.discarded or self.world['kind'] != 'net':
             return {'kind': 'skip'}
-        first = [(list(o.el_id_list), list(o.spectrum_bitmap.freq_index)) for o in self.oms_list]
+        first = getattr(self, 'fresh_signature', None)
         try:
             self.oms_list = sa.build_oms_list(self.network, self.equipment)
         except Exception as e:      # noqa
@@ -173,9 +175,12 @@ class E2Session(SessionBase):
                 raise Violation('C15', 'oms-list-cannot-be-built-again-on-the-same-network', repr(e)[:300])
             self.discarded = 'oms-list-cannot-be-rebuilt'
             return {'kind': 'rebuild-failed'}
-        if 'C15' in self.props and check_same and first != [(list(o.el_id_list), list(o.spectrum_bitmap.freq_index))
-                                                            for o in self.oms_list]:
+        if 'C15' in self.props and check_same and first is not None and \
+                first != [(list(o.el_id_list), list(o.spectrum_bitmap.freq_index)) for o in self.oms_list]:
             raise Violation('C15', 'rebuilt-oms-partition-differs', 'second build_oms_list on the same network differs')
+        if not check_same:
+            # the topology was edited (link cut / restored): this build is the new reference
+            self.fresh_signature = [(list(o.el_id_list), list(o.spectrum_bitmap.freq_index)) for o in self.oms_list]
         self._adopt_fresh_oms_list('rebuilt on the same network')
         self.st.probes['oms_list_rebuilt_on_used_network'] += 1
         return {'kind': 'rebuilt'}
@@ -213,6 +218,19 @@ class E2Session(SessionBase):
                 raise Violation('C15', 'reversed-oms-is-not-the-opposite-direction', f'oms {i} -> oms {r.oms_id}')
             if len(want) == 1 and r.reversed_oms is not oms:
                 raise Violation('C15', 'reversed-oms-pairing-not-mutual', f'oms {i} <-> oms {r.oms_id}')
+
+    def _common_bands(self, i):
+        from gnpy.core.elements import Edfa, Multiband_amplifier
+        cache = self.__dict__.setdefault('_bands_cache', {})
+        if i not in cache:
+            si = self.equipment['SI']['default']
+            common = None
+            for a in [e for e in self.oms_list[i].el_list if isinstance(e, (Edfa, Multiband_amplifier))]:
+                iv = [(b['f_min'], b['f_max']) for b in a.params.bands]
+                common = iv if common is None else [(max(x0, y0), min(x1, y1)) for x0, x1 in common for y0, y1 in iv
+                                                    if max(x0, y0) < min(x1, y1)]
+            cache[i] = common if common is not None else [(si.f_min, si.f_max)]
+        return cache[i]
 
     def _check_usable_bands(self):
         """a slot whose nominal frequency lies >= 1 grid step inside a band common to the OMS's amplifiers is FREE;
@@ -527,6 +545,14 @@ class E2Session(SessionBase):
                 states = {o: self.model[o].get(bad[0]) for o in path_oms}
                 kind = 'double-booked-slot' if 'O' in states.values() else 'assignment-on-unusable-slot'
                 raise Violation('C14', kind, f'{r["id"]}: [{a},{b}] slot {bad[0]} is {states} on path oms')
+        if self.world['kind'] == 'net':
+            for o in path_oms:
+                for x in [x for a, b in rgs for x in range(a, b + 1)]:
+                    f = 193.1e12 + x * self.grid
+                    if all(f <= lo - self.grid or f >= hi + self.grid for lo, hi in self._common_bands(o)):
+                        raise Violation('C14', 'assignment-outside-the-usable-band',
+                                        f'{r["id"]}: slot {x} ({f * 1e-12:.5f} THz) is outside the bands common to the '
+                                        f'amplifiers of oms {o}: {self._common_bands(o)}')
         allslots = [x for a, b in rgs for x in range(a, b + 1)]
         if len(allslots) != len(set(allslots)):
             raise Violation('C14', 'slots-of-one-request-overlap', f'{r["id"]}: N={ns} M={ms}')
@@ -576,6 +602,25 @@ class E2Session(SessionBase):
         padded = self._align_and_check('after extend')
         self.nontrivial = self.nontrivial or (padded and self.accepted > 0)
         return {'kind': 'padded' if padded else 'same'}
+
+    def do_widen(self, which, dl, dh):
+        """one OMS of a *built* list gets a fresh, wider map (update_spectrum), then the whole list is aligned again; the
+        other maps must keep unique, contiguous indices and their occupancy at its frequency"""
+        if self.discarded or self.world['kind'] != 'net' or not self.oms_list:
+            return {'kind': 'skip'}
+        i = which % len(self.oms_list)
+        cmin, cmax = self.common_extent()
+        lo, hi = cmin - dl, cmax + dh
+        self.oms_list[i].update_spectrum(sa.nvalue_to_frequency(lo), sa.nvalue_to_frequency(hi),
+                                         guardband=self.g * self.grid, grid=self.grid)
+        self.model[i] = {n: 'F' for n in range(lo, hi + 1)}
+        self.services[i] = []
+        self.oms_list[i].service_list = []
+        self.oms_list[i].nb_channels = 0
+        self.own_extent[i] = (lo, hi)
+        padded = self._align_and_check('after widening one map of a built list')
+        self.st.probes['built_list_realigned_after_widening'] += 1
+        return {'kind': 'widened:' + ('padded' if padded else 'same')}
 
     def do_align(self):
         """re-aligning already aligned maps must change nothing"""
@@ -645,7 +690,7 @@ def make_machine(prop, tier, cfg):
         k = draw(st.integers(0, 9))
         if k < 7:
             return draw(synthetic_world(prop))
-        if prop == 'C15' and k < 9:
+        if (prop == 'C15' and k < 9) or (prop == 'C14' and k == 8):
             return draw(worlds.multiband_world_strategy())
         return draw(worlds.world_strategy('small'))
 
@@ -684,6 +729,14 @@ def make_machine(prop, tier, cfg):
             out = {'path': r['path'], 'rpath': r['rpath'], 'slots': slots, 'pcm': r['pcm'], 'nwl': r['nwl'],
                    'preblocked': pre, 'off': r['off']}
             if s.world['kind'] == 'net':
+                # user-fixed N are placed around the edges of the usable bands (where an off-by-one matters)
+                m0 = s.model[0] if s.model else {}
+                edges = sorted(n for n, v in m0.items() if v == 'F' and (m0.get(n - 1) != 'F' or m0.get(n + 1) != 'F'))
+                if edges:
+                    for k_, (n, m) in enumerate(out['slots']):
+                        if n is not None:
+                            e = edges[(r['path'][-1] + k_) % len(edges)]
+                            out['slots'][k_] = [e + (n % 25) - 12, m]
                 sites = s.world['meta']['sites']
                 a = sites[r['path'][0] % len(sites)]
                 b = sites[(r['path'][0] + 1 + (r['path'][-1] % (len(sites) - 1))) % len(sites)]
@@ -715,6 +768,12 @@ def make_machine(prop, tier, cfg):
                 self.sess.apply('cut', {'which': which})
 
         if prop == 'C15':
+            @precondition(lambda self: self.sess is not None and self.sess.world['kind'] == 'net')
+            @rule(which=st.integers(0, 30), dl=st.integers(0, 12), dh=st.integers(0, 12))
+            def widen(self, which, dl, dh):
+                if getattr(self.sess, 'cut', None) is None:
+                    self.sess.apply('widen', {'which': which, 'dl': dl, 'dh': dh})
+
             @rule(dl=st.integers(-10, 10), dh=st.integers(-10, 10), us=st.lists(
                 st.tuples(st.integers(0, 100), st.integers(0, 100)), min_size=1, max_size=2))
             def extend(self, dl, dh, us):
